@@ -60,6 +60,9 @@ impl Sys {
         }
         acc
     }
+    pub fn ncons(&self) -> usize {
+        self.a.len()
+    }
     pub fn satisfied(&self, z: &[Fq]) -> bool {
         for i in 0..self.a.len() {
             if Self::lc(&self.a[i], z) * Self::lc(&self.bm[i], z) != Self::lc(&self.c[i], z) {
@@ -179,7 +182,7 @@ pub fn run(ctx: &Ctx, rec: &mut Rec) {
     let gs = gadgets();
     let mut zrng = rng_for(ctx.seed, "C14-tamper", 999, 0);
     let zoo = elements_for_gadgets(ctx, &mut zrng, ctx.scale(8, 40));
-    for k in ["isqrt-pair", "bool-flip", "bit-run+p", "bit-run-p", "bit-run-single-flip", "field-neg", "field-zero", "field-one", "field-plus-one", "field-zeta", "field-random"] {
+    for k in ["isqrt-pair", "bool-flip", "bit-run+p", "bit-run-p", "bit-run-single-flip", "field-neg", "field-zero", "field-one", "field-plus-one", "field-zeta", "field-random", "joint"] {
         rec.declare_class(&format!("tamper:{k}"));
     }
     let mut work: Vec<(usize, Inp, String)> = Vec::new();
@@ -320,6 +323,55 @@ pub fn run(ctx: &Ctx, rec: &mut Rec) {
                     }
                 }
             }
+            // joint substitutions: a gadget with a handful of scalar hints gets the full cross product of a small
+            // set of alternatives per hint (booleans: both values; field hints: honest, 0, 1, -1, -honest); with up
+            // to twelve such hints all pairs are combined. A relation between hints that the constraints fail to
+            // pin down (an is-zero flag together with its inverse hint, a flag together with its root) needs several
+            // hints to move at once.
+            {
+                let scalar: Vec<usize> = hints.iter().enumerate().filter(|(pos, _)| !in_run(*pos)).map(|(_, u)| *u).collect();
+                let alts_of = |u: usize| -> Vec<Fq> {
+                    let hv = honest[u];
+                    let mut a = if is_bool(u) { vec![Fq::ZERO, Fq::ONE] } else { vec![hv, Fq::ZERO, Fq::ONE, -Fq::ONE, -hv] };
+                    a.dedup();
+                    a
+                };
+                let mut joint: Vec<Vec<(usize, Fq)>> = Vec::new();
+                if !scalar.is_empty() && scalar.len() <= 5 && sys.ncons() <= 4000 {
+                    let lists: Vec<Vec<Fq>> = scalar.iter().map(|u| alts_of(*u)).collect();
+                    let total: usize = lists.iter().map(|l| l.len()).product();
+                    for idx in 0..total.min(3200) {
+                        let mut k = if total <= 3200 { idx } else { (crate::zoo::rand_range(&mut rng, total)) };
+                        let mut set = Vec::new();
+                        for (li, l) in lists.iter().enumerate() {
+                            let v = l[k % l.len()];
+                            k /= l.len();
+                            if v != honest[scalar[li]] {
+                                set.push((scalar[li], v));
+                            }
+                        }
+                        if set.len() >= 2 {
+                            joint.push(set);
+                        }
+                    }
+                } else if scalar.len() <= 12 && sys.ncons() <= 4000 {
+                    for i1 in 0..scalar.len() {
+                        for i2 in (i1 + 1)..scalar.len() {
+                            for v1 in alts_of(scalar[i1]) {
+                                for v2 in alts_of(scalar[i2]) {
+                                    if v1 != honest[scalar[i1]] && v2 != honest[scalar[i2]] {
+                                        joint.push(vec![(scalar[i1], v1), (scalar[i2], v2)]);
+                                    }
+                                }
+                            }
+                        }
+                    }
+                }
+                for set in joint {
+                    let desc = format!("joint change of {} hints: {}", set.len(), set.iter().map(|(u, v)| format!("w{}:={}", u - sys.ninst, hexs(&fqb(v)))).collect::<Vec<_>>().join(", "));
+                    tampers.push(Tamper { kind: "joint", set, desc });
+                }
+            }
             // isqrt hint pairs at the constraint level: the re-synthesis of (a) runs the honest prover
             // code, which panics inside arkworks (`Affine::new` asserts on-curve) as soon as a substituted
             // hint drives an intermediate point off the curve; a malicious prover is not bound by that
@@ -381,7 +433,9 @@ pub fn run(ctx: &Ctx, rec: &mut Rec) {
                         let known_family = class.split('|').any(|c| c == "s=q-1")
                             && sites.iter().any(|(w0, den, _)| {
                                 let (wf_, wy) = (sys.ninst + w0, sys.ninst + w0 + 1);
-                                den.is_zero() && t.set.iter().all(|(u, _)| *u == wf_ || *u == wy) && z2[wf_] == Fq::ONE && z2[wy] * z2[wy] == Fq::ONE
+                                // (judged on the final assignment: whichever witnesses were moved, a satisfied decode
+                                // of s = q-1 has den = 0 and therefore ends with the hint pair (true, y^2 = 1))
+                                den.is_zero() && z2[wf_] == Fq::ONE && z2[wy] * z2[wy] == Fq::ONE
                             });
                         let sig = if known_family {
                             format!("{P}:satisfied-but-native-rejects:input-encoding=s=q-1:isqrt:den=0:hint=(true,y^2=1)")
@@ -399,7 +453,7 @@ pub fn run(ctx: &Ctx, rec: &mut Rec) {
                             };
                             if ok {
                                 rec.count("tampers_satisfied_output_preserved", 1);
-                            } else if g.name == "isqrt" && t.kind == "isqrt-pair" && t.desc.contains("den=0:hint=(true,y^2=1)") {
+                            } else if g.name == "isqrt" && isqrt_sites.lock().unwrap().iter().any(|(w0, den, _)| den.is_zero() && z2[sys.ninst + w0] == Fq::ONE && z2[sys.ninst + w0 + 1] * z2[sys.ninst + w0 + 1] == Fq::ONE) {
                                 // the primitive itself: the other known signature of the den = 0 family
                                 rec.violation(format!("{P}:wrong-output-under-hint:site=isqrt:isqrt#0:den=0:hint=(true,y^2=1)"),
                                     format!("isqrt(0) under the hint (true, +-1), replayed on the executed constraint system: {}", t.desc), detail);
